@@ -629,7 +629,7 @@ func c10Gen(r *verifh.Rng) []verifh.Section {
 			}
 		}
 	}
-	for i := verifh.Scale(150, 6000); i > 0; i-- {
+	for i := verifh.Scale(500, 40000); i > 0; i-- {
 		lines = append(lines, c10Random(r).String())
 	}
 	// ForEach: plain and with a panicking item
